@@ -79,8 +79,10 @@ Hypothesis Hgne : Forall (fun xs : list (T A) => xs <> []) grids.     (* no empt
 Hypothesis Hev : grideval t grids = GOk a.  (* did not throw: one grid per dimension, some coefficient nonzero *)
 
 (* the index ranges are the grid lengths; every grid entry is the tensor-product sum over ALL coefficients with the
-   right-continuous Cox–de Boor functions (0/0 := 0) of the stored orders on the stored knots, evaluated at the grid
-   abscissae; outside the ranges the array is 0; an entry that is not listed is 0 and so is the sum there *)
+   Cox–de Boor functions (0/0 := 0) of the stored orders on the stored knots, taken with the one-sided convention of the
+   evaluation properties (BSpline.side_of: right-continuous below knots[naxes], left-continuous from there upwards — since
+   fix F30_1 bsplinebasis passes exactly that side), evaluated at the grid abscissae; outside the ranges the array is 0; an
+   entry that is not listed is 0 and so is the sum there *)
 Theorem C17_grideval_spec :
   nd_ranges a = map (@length (T A)) grids /\
   (forall g, grid_in g grids -> nd_get a g = grid_spec t (grid_point grids g)) /\
@@ -92,54 +94,62 @@ Proof.
   split; [exact (grideval_outside F t grids s a Hwf HRM Hgne Hev) | exact (grideval_unlisted F t grids s a Hwf HRM Hgne Hev)].
 Qed.
 
-(* agreement with pointwise evaluation: at every grid point where center lookup succeeds (first knot < x <= last knot, C04)
-   and x_d < knots_d[naxes_d] in every dimension — below the upper end of full support, where pointwise evaluation uses
-   the right-continuous convention too (BSpline.side_of) — the grid entry IS ndsplineeval at that point. Excluded: grid
-   points with some x_d >= knots_d[naxes_d] (pointwise evaluation is left-continuous there, splineutil's bspline
-   right-continuous; for order >= 1 both are the same continuous function unless a knot there has multiplicity > order —
-   that part is tested on every run, not proved) and points where lookup fails (x <= first knot or x > last knot). *)
+(* agreement with pointwise evaluation, ONE statement for every grid point: wherever center lookup succeeds (first knot < x
+   <= last knot in every dimension, C04 — the last knot included) the grid entry IS ndsplineeval at that point. No
+   hypothesis about the side of knots[naxes], about knot multiplicities or about orders is left: knots of any multiplicity
+   (jumps of the spline included), order 0, points exactly on the last knot are all covered, because both sides are the same
+   specification sum (C01's spline_spec). The one hypothesis is C01's own [eval_regular]: in no dimension is the fully
+   supported range the single point x_d (knots[order] = ... = knots[naxes] = x_d — there POINTWISE evaluation departs from
+   the specification: C01_refuted_without_regularity, C17_regularity_needed below). *)
 Theorem C17_agrees_pointwise : forall g cs, grid_in g grids ->
   searchcenters t (grid_point grids g) = CFound cs ->
-  Forall2 (fun d x => side_of d x = true) (dims t) (grid_point grids g) ->
+  Forall2 eval_regular (dims t) (grid_point grids g) ->
   nd_get a g = ndsplineeval t (grid_point grids g) cs 0.
 Proof. exact (grideval_agrees_pointwise F t grids s a Hwf HRM Hgne Hev). Qed.
 
-(* ... and AT AND ABOVE the upper end of full support too, in every dimension of order >= 1 whose knots are strictly
-   increasing (side_ok: x_d below knots_d[naxes_d], OR order_d >= 1 with strict knots): B-splines of order >= 1 are
-   continuous, so the right-continuous convention of splineutil's bspline and the left-continuous one of pointwise
-   evaluation give the same value (C17_Upper.Bfun_sides_agree). What remains excluded is only what the property itself
-   excludes or what is a known finding: order-0 dimensions at/above the upper end (the grid gives 0 at the last knot,
-   C17_last_knot_differs) and repeated knots there (where pointwise evaluation itself is at fault: finding D17 of C01). *)
-Theorem C17_agrees_pointwise_upper : forall g cs, grid_in g grids ->
+(* the same with a condition on the table alone: the fully supported range has positive width in every dimension
+   (knots[order] < knots[naxes]) — then at EVERY grid point at which center lookup succeeds *)
+Theorem C17_agrees_pointwise_nondegenerate : Forall full_support_nonempty (dims t) ->
+  forall g cs, grid_in g grids ->
   searchcenters t (grid_point grids g) = CFound cs ->
-  Forall2 side_ok (dims t) (grid_point grids g) ->
   nd_get a g = ndsplineeval t (grid_point grids g) cs 0.
-Proof.
-  intros g cs Hg Hsc Hside.
-  destruct (grideval_inv t grids a Hev) as [Hne [Hlen _]].
-  rewrite (grideval_spec F t grids s a Hwf HRM Hgne Hev g Hg).
-  apply (grid_spec_pointwise_upper F); try assumption.
-  - unfold ndim_of, strides_of. apply (RM_last_stride _ _ HRM Hne).
-  - rewrite grid_point_length by exact Hg. exact Hlen.
-Qed.
+Proof. exact (grideval_agrees_pointwise_nondegenerate F t grids s a Hwf HRM Hgne Hev). Qed.
 End C17_grid.
 
-(* the specification sum equals pointwise evaluation on the stated domain, independently of any grid *)
+(* the specification sum of grid evaluation is C01's specification sum (which merely skips vanishing factors), at every
+   point whatsoever, and hence pointwise evaluation wherever C01's theorem applies — independently of any grid *)
+Theorem C17_spec_is_spline_spec : forall (A : Arith) (F : OField A) (t : @table A) (xs : list (T A)),
+  length xs = length (dims t) -> grid_spec t xs = spline_spec t xs (repeat O (ndim_of t)).
+Proof. intros A F. exact (grid_is_spline_spec F). Qed.
 Theorem C17_spec_is_pointwise : forall (A : Arith) (F : OField A) (t : @table A) (xs : list (T A)) (cs : list Z),
   dims t <> [] -> Forall wfd (dims t) -> nth (ndim_of t - 1) (strides_of t) 0%Z = 1%Z -> length xs = length (dims t) ->
-  searchcenters t xs = CFound cs -> Forall2 (fun d x => side_of d x = true) (dims t) xs ->
+  searchcenters t xs = CFound cs -> Forall2 eval_regular (dims t) xs ->
   grid_spec t xs = ndsplineeval t xs cs 0.
 Proof. intros A F. exact (grid_spec_pointwise F). Qed.
 
 (* splineutil.c's bspline (GridModel.bspline_guarded: the recursion that skips a term whose denominator vanishes, as the
-   code does since fix 33ef56f) IS the right-continuous Cox–de Boor function with the 0/0 := 0 convention — for EVERY knot
+   code does since fix 07dbb30, with the flag for the side of the order-0 indicator it has since fix F30_1) IS the Cox–de Boor
+   function with the 0/0 := 0 convention, right-continuous for left = 0 and left-continuous for left != 0 — for EVERY knot
    sequence (repeated knots, any multiplicity, even unsorted), every order, every index and every x: nothing is excluded.
-   Before the fix the function divided 0/0 on repeated knots (NaN in IEEE arithmetic: former finding D23,
-   C17:grideval:repeated-knot->NaN); the corresponding statement about the unguarded recursion, which needed
-   non-decreasing knots and exact arithmetic, survives as C17_Proofs.bspline_Bfun (src/core/bspline.cpp's bspline). *)
+   And every entry of the matrix bsplinebasis builds (flag x[row] >= knots[nknots-order-1]) is the SPECIFICATION's basis
+   function [Bfun kn (side_of d x) order col x] — the very term of BSpline.spline_spec.
+   Before fix 07dbb30 the function divided 0/0 on repeated knots (former finding D23); the corresponding statement about the
+   unguarded recursion survives as C17_Proofs.bspline_Bfun (src/core/bspline.cpp's bspline). *)
 Theorem C17_bspline_is_cox_de_boor : forall (A : Arith) (F : OField A) (kn : Z -> T A),
-  forall x n i, bspline_guarded kn n x i = Bfun kn true n i x.
-Proof. intros A F kn x. exact (bspline_guarded_Bfun F kn x). Qed.
+  forall left x n i, bspline_guarded kn left n x i = Bfun kn (negb left) n i x.
+Proof. intros A F kn left x. exact (bspline_guarded_Bfun F kn left x). Qed.
+Theorem C17_basis_is_spec_basis : forall (A : Arith) (F : OField A) (d : @dimn A) (xs : list (T A)) (r k : nat),
+  wfd d -> r < length xs -> k < nsplines d ->
+  mget (basis_matrix d xs) r k = Bfun (d_kn d) (side_of d (nth r xs zero)) (d_order d) (Z.of_nat k) (nth r xs zero).
+Proof. intros A F. exact (basis_entry F). Qed.
+
+(* what fix F30_1 does NOT change: on a dimension of order >= 1 with strictly increasing knots bsplinebasis returns, for
+   EVERY abscissa, exactly the matrix the right-continuous basis gave (B-splines of order >= 1 are continuous there) — for
+   the fitter as well as for grid evaluation. Changed are only rows of abscissae at or above knots[naxes] on dimensions of
+   order 0 or with repeated knots (see the two examples at the end). *)
+Theorem C17_basis_unchanged_on_strict_knots : forall (A : Arith) (F : OField A) (d : @dimn A) (xs : list (T A)),
+  wfd d -> 1 <= d_order d -> strict_dim d -> basis_matrix d xs = basis_matrix_rc d xs.
+Proof. intros A F. exact (basis_unchanged_strict F). Qed.
 
 (* ---------------------------------------------------------------------------------------------- *)
 (** * non-vacuity: a 2-dimensional table (orders 2 and 1, sparse coefficients) on exact rationals, an unsorted grid with a
@@ -189,7 +199,7 @@ Proof.
   split; [rewrite Ea; vm_compute; reflexivity|].
   apply (C17_agrees_pointwise QcA_OField ex_tab ex_grids 15 a ex_wf ex_RM ex_gne E _ _ Hin).
   - vm_compute. reflexivity.
-  - constructor; [vm_compute; reflexivity|]. constructor; [vm_compute; reflexivity|constructor].
+  - constructor; [intros _; vm_compute; reflexivity|]. constructor; [intros _; vm_compute; reflexivity|constructor].
 Qed.
 
 (* the hypotheses of the slicemultiply theorem hold for the array grideval starts from *)
@@ -202,17 +212,101 @@ Proof.
   split; [cbn; lia|]. split; [intros [|[|l]] H1 H2; cbn in *; lia|]. vm_compute. reflexivity.
 Qed.
 
-(* the right-continuous convention is what makes the domain restriction necessary for order 0: at an interior knot that
-   is >= knots[naxes] only when it is the last knot; an order-0 example AT the last knot (not strictly inside the range):
-   grid evaluation gives 0, pointwise evaluation the last coefficient *)
-Definition ex0_tab : @table QcA := @mkTable QcA [@mkDim QcA 0%nat 4 3 1 qz17] (fun i => qz17 (i + 1)).
-Example C17_last_knot_differs :
-  searchcenters ex0_tab [qz17 3] = CFound [2%Z] /\ ndsplineeval ex0_tab [qz17 3] [2%Z] 0 = qz17 3 /\ grid_spec ex0_tab [qz17 3] = qz17 0.
-Proof. split; [vm_compute; reflexivity|]. split; vm_compute; reflexivity. Qed.
+(* order 0 AT the last knot (the last knot belongs to the last interval): before fix F30_1 the basis row was identically
+   zero there (the right-continuous indicator excludes the last knot: grid evaluation gave 0, a data point there was ignored
+   by the fit) while pointwise evaluation gives the last coefficient; now both give the last coefficient *)
+Definition ex0_d : @dimn QcA := @mkDim QcA 0%nat 4 3 1 qz17.
+Definition ex0_tab : @table QcA := @mkTable QcA [ex0_d] (fun i => qz17 (i + 1)).
+Example C17_last_knot_agrees :
+  searchcenters ex0_tab [qz17 3] = CFound [2%Z] /\ ndsplineeval ex0_tab [qz17 3] [2%Z] 0 = qz17 3 /\
+  grid_spec ex0_tab [qz17 3] = qz17 3 /\
+  basis_matrix ex0_d [qz17 3] = [[qz17 0; qz17 0; qz17 1]] /\
+  basis_matrix_rc ex0_d [qz17 3] = [[qz17 0; qz17 0; qz17 0]] /\
+  exists a, grideval ex0_tab [[qz17 3]] = GOk a /\ nd_get a [0]%nat = qz17 3.
+Proof.
+  split; [vm_compute; reflexivity|]. split; [vm_compute; reflexivity|]. split; [vm_compute; reflexivity|].
+  split; [vm_compute; reflexivity|]. split; [vm_compute; reflexivity|].
+  destruct (grideval ex0_tab [[qz17 3]]) as [|a] eqn:E; [vm_compute in E; discriminate|].
+  exists a. split; [reflexivity|].
+  assert (Ea : a = match grideval ex0_tab [[qz17 3]] with GOk a0 => a0 | GThrow => a end) by (rewrite E; reflexivity).
+  rewrite Ea; vm_compute; reflexivity.
+Qed.
+
+(* former finding D30 (C17:{grideval,splinetable_grideval}:one-sided-limits-differ-at-discontinuity; corpus/C17/
+   jump_at_upper_end.json): order 2, knots 956 983 1017 1094 1094 1180 1180 1180 1275 1275 (the finding's example times
+   1000), coefficients 1..7, x = 1180 = knots[naxes]: a knot of multiplicity order+1 strictly inside the knot range, where the
+   spline jumps from coefficient 5 (index 4) to coefficient 6 (index 5). Pointwise evaluation is left-continuous from
+   knots[naxes] upwards and returns 5. The RIGHT-continuous basis bsplinebasis used before fix F30_1 has its 1 in column 5:
+   its grid value was 6, the other one-sided limit — refuted as a model of agreement; the basis of the fixed code has the 1
+   in column 4, and grid evaluation returns 5 = the specification = ndsplineeval (by C17_agrees_pointwise, whose hypotheses
+   hold). *)
+Definition exj_kn (z : Z) : Qc :=
+  qz17 (nth (Z.to_nat z) [956; 983; 1017; 1094; 1094; 1180; 1180; 1180; 1275; 1275]%Z 1275%Z).
+Definition exj_d : @dimn QcA := @mkDim QcA 2%nat 10 7 1 exj_kn.
+Definition exj_tab : @table QcA := @mkTable QcA [exj_d] (fun i => qz17 (i + 1)).
+Definition exj_grids : list (list Qc) := [[qz17 1180]].
+Definition row_value (row : list Qc) (t : @table QcA) : Qc :=
+  lsumK (A := QcA) (fun k => @mul QcA (nth k row (qz17 0)) (coef t (Z.of_nat k))) (seq 0 (length row)).
+Theorem C17_refuted_right_continuous_basis :
+  Forall (@wfd QcA) (dims exj_tab) /\ RM (dims exj_tab) 7 /\
+  @ltb QcA (exj_kn 0) (qz17 1180) = true /\ @ltb QcA (qz17 1180) (exj_kn 9) = true /\   (* strictly inside the range *)
+  searchcenters exj_tab [qz17 1180] = CFound [4%Z] /\
+  ndsplineeval exj_tab [qz17 1180] [4%Z] 0 = qz17 5 /\
+  spline_spec exj_tab [qz17 1180] [O] = qz17 5 /\
+  (* the basis as it was: the other one-sided limit *)
+  basis_matrix_rc exj_d [qz17 1180] = [[qz17 0; qz17 0; qz17 0; qz17 0; qz17 0; qz17 1; qz17 0]] /\
+  row_value (nth 0 (basis_matrix_rc exj_d [qz17 1180]) []) exj_tab = qz17 6 /\
+  row_value (nth 0 (basis_matrix_rc exj_d [qz17 1180]) []) exj_tab <> ndsplineeval exj_tab [qz17 1180] [4%Z] 0 /\
+  (* the basis as it is *)
+  basis_matrix exj_d [qz17 1180] = [[qz17 0; qz17 0; qz17 0; qz17 0; qz17 1; qz17 0; qz17 0]] /\
+  exists a, grideval exj_tab exj_grids = GOk a /\ nd_get a [0]%nat = qz17 5 /\
+            nd_get a [0]%nat = ndsplineeval exj_tab [qz17 1180] [4%Z] 0.
+Proof.
+  assert (W : Forall (@wfd QcA) (dims exj_tab)).
+  { constructor; [|constructor]. unfold wfd, wf_dim, exj_d; cbn [d_order d_nknots d_naxes d_kn].
+    split; [lia|]. split; [lia|]. split; [auto|]. intros i j Hi Hij Hj. unfold exj_kn. apply qz17_mono.
+    assert (Hi' : (Z.to_nat i < 10)%nat) by lia. assert (Hj' : (Z.to_nat j < 10)%nat) by lia.
+    assert (Hij' : (Z.to_nat i <= Z.to_nat j)%nat) by lia.
+    revert Hi' Hj' Hij'. generalize (Z.to_nat i) as p. generalize (Z.to_nat j) as q. intros q p Hp Hq Hpq.
+    do 10 (destruct p as [|p]; [do 10 (destruct q as [|q]; [cbn [nth]; lia|]); lia|]). lia. }
+  assert (R : RM (dims exj_tab) 7).
+  { change 7%Z with (d_naxes exj_d * 1)%Z. constructor; [constructor | reflexivity | cbn; lia]. }
+  assert (G : Forall (fun xs : list Qc => xs <> []) exj_grids) by (constructor; [discriminate|constructor]).
+  split; [exact W|]. split; [exact R|].
+  split; [vm_compute; reflexivity|]. split; [vm_compute; reflexivity|]. split; [vm_compute; reflexivity|].
+  split; [vm_compute; reflexivity|]. split; [vm_compute; reflexivity|]. split; [vm_compute; reflexivity|].
+  split; [vm_compute; reflexivity|]. split; [vm_compute; discriminate|]. split; [vm_compute; reflexivity|].
+  destruct (grideval exj_tab exj_grids) as [|a] eqn:E; [vm_compute in E; discriminate|].
+  exists a. split; [reflexivity|].
+  assert (Ea : a = match grideval exj_tab exj_grids with GOk a0 => a0 | GThrow => a end) by (rewrite E; reflexivity).
+  split; [rewrite Ea; vm_compute; reflexivity|].
+  assert (Hin : grid_in (A := QcA) [0]%nat exj_grids) by (constructor; [cbn; lia | constructor]).
+  apply (C17_agrees_pointwise QcA_OField exj_tab exj_grids 7 a W R G E _ _ Hin).
+  - vm_compute. reflexivity.
+  - constructor; [intros _; vm_compute; reflexivity|constructor].
+Qed.
+
+(* the remaining hypothesis [eval_regular] cannot be dropped, and the departure is on the POINTWISE side (C01's open residual
+   C01:x==knots[order]==knots[naxes]): order 2, knots 0 1 2 2 2 2 3 4 — the fully supported range is the single point 2 —
+   all coefficients 1, x = 2: the specification and grid evaluation give 1 (partition of unity), pointwise evaluation runs
+   its recurrence on a zero-width span *)
+Definition exd_kn (i : Z) : Qc := qz17 (if (i <? 2)%Z then i else if (i <? 6)%Z then 2 else i - 3).
+Definition exd_tab : @table QcA := @mkTable QcA [@mkDim QcA 2%nat 8 5 1 exd_kn] (fun _ => qz17 1).
+Theorem C17_regularity_needed :
+  searchcenters exd_tab [qz17 2] = CFound [2%Z] /\
+  ~ eval_regular (A := QcA) (@mkDim QcA 2%nat 8 5 1 exd_kn) (qz17 2) /\
+  grid_spec exd_tab [qz17 2] = qz17 1 /\
+  ndsplineeval exd_tab [qz17 2] [2%Z] 0 <> grid_spec exd_tab [qz17 2].
+Proof.
+  split; [vm_compute; reflexivity|]. split.
+  - unfold eval_regular. intro H. assert (H1 : OFieldKit.lt (A := QcA) (qz17 2) (qz17 2)) by (apply H; vm_compute; reflexivity).
+    vm_compute in H1. discriminate.
+  - split; [vm_compute; reflexivity|]. vm_compute. discriminate.
+Qed.
 
 (* a REPEATED knot (regression of the former finding D23; corpus/C17/repeated_knot.json): order 1, knots 0 1 1 2 3,
    coefficients 1 2 3, grid 1/2 3/2 5/2. The hypotheses of the theorems hold, grid evaluation gives 1/2 5/2 3/2, which is
-   the specification sum and — below the upper end of full support — pointwise evaluation. *)
+   the specification sum and pointwise evaluation. *)
 Definition exr_d : @dimn QcA := @mkDim QcA 1%nat 5 3 1 (fun z => qz17 (if (z <=? 1)%Z then z else z - 1)).
 Definition exr_tab : @table QcA := @mkTable QcA [exr_d] (fun i => qz17 (i + 1)).
 Definition exr_grids : list (list Qc) := [[Q2Qc (1 # 2); Q2Qc (3 # 2); Q2Qc (5 # 2)]].
@@ -245,7 +339,7 @@ Proof.
   split; [|vm_compute; reflexivity].
   apply (C17_agrees_pointwise QcA_OField exr_tab exr_grids 3 a W R G E _ _ Hin).
   - vm_compute. reflexivity.
-  - constructor; [vm_compute; reflexivity|constructor].
+  - constructor; [intros _; vm_compute; reflexivity|constructor].
 Qed.
 
 Print Assumptions C17_unflatten_flatten.
@@ -255,10 +349,15 @@ Print Assumptions C17_slicemultiply_is_mode_product.
 Print Assumptions C17_slicemultiply_shape.
 Print Assumptions C17_grideval_spec.
 Print Assumptions C17_agrees_pointwise.
-Print Assumptions C17_agrees_pointwise_upper.
+Print Assumptions C17_agrees_pointwise_nondegenerate.
+Print Assumptions C17_spec_is_spline_spec.
 Print Assumptions C17_spec_is_pointwise.
 Print Assumptions C17_bspline_is_cox_de_boor.
+Print Assumptions C17_basis_is_spec_basis.
+Print Assumptions C17_basis_unchanged_on_strict_knots.
 Print Assumptions C17_hypotheses_satisfiable.
 Print Assumptions C17_slice_hypotheses_satisfiable.
-Print Assumptions C17_last_knot_differs.
+Print Assumptions C17_last_knot_agrees.
+Print Assumptions C17_refuted_right_continuous_basis.
+Print Assumptions C17_regularity_needed.
 Print Assumptions C17_repeated_knot_example.
